@@ -155,6 +155,11 @@ class Session:
             self.can_decrypt = False
             return
 
+        if tls_version != TlsVersion.TLS13:
+            # up to TLS 1.2 the keys come from the master secret; other labels logged for the same client random (e.g. the
+            # early traffic secret of a client whose 0-RTT offer was answered with TLS 1.2) must not hide that line
+            secret = next((s for s in secret_list if s.label == "CLIENT_RANDOM"), secret)
+
         keys = None
         match tls_version:
             case TlsVersion.TLS13:
